@@ -210,6 +210,16 @@ def gen(ref, tier):
                 e = "/".join(segs[:i] + [""] + segs[i + 1:])
                 if ref.natural(e)[0]:
                     yield [e, None]
+    # names with blanks at either end or inside, and other special names, in every free-text position
+    from props.c02 import SPECIAL_NAMES
+    for typ, s in conc.items():
+        segs = s.split("/")
+        for i, (k, pat) in enumerate(ref.templates[typ]):
+            if pat is None:
+                for nm in [n for n in SPECIAL_NAMES if not n.startswith("~")] + ["ab ", " ab", "a b", " "]:      # (a leading '~': known finding of C02)
+                    e = "/".join(segs[:i] + [nm] + segs[i + 1:])
+                    if ref.natural(e)[0]:
+                        yield [e, None]
     for s in UNTYPED:
         yield [s, None]
     for s in universe.one_per_type(ref).values():
